@@ -12,6 +12,7 @@ mod c12;
 mod c13;
 mod c16;
 mod shape_corr;
+mod lists_corr;
 mod corpus;
 mod gen;
 mod sweep;
@@ -77,6 +78,7 @@ fn main() {
         "c13api" => c13::api_main(&args[2..]),
         "c18" => c18::run(&tier, seed, &out),
         "boundary" => boundary::main(&args[2..]),
+        "lists" => lists_corr::run(&tier, seed, &out),
         "probe" => probe(&out),
         // rfverif tokens <file> [keep]  : the encoded token list of a file (for the C01/C03 validators)
         "tokens" => { let src = std::fs::read_to_string(&args[2]).unwrap_or_default(); println!("{}", toks::encode_tokens(&src, args.get(3).map(|s| s == "keep").unwrap_or(false))); 0 }
